@@ -17,23 +17,31 @@ fn fixed_recs() -> Vec<Rec> {
     ]
 }
 
-/// true when some explicit digit run exceeds the sanity bound (encoding is then not exercised)
+/// true when some explicit digit run lies between the sanity bound and what a usize can hold: such a
+/// width is legal and would make the encoder pad for hours, so encoding is not exercised (the statement's
+/// sanity bound). Runs that do not even fit a usize must surface as an error and ARE encoded (into a
+/// sink that refuses more than 1 MiB, so that a wrapped width cannot run away).
 pub fn absurd_width(s: &str) -> bool {
     let mut cur: u128 = 0;
-    let mut digits = 0;
+    let mut in_run = false;
+    let mut bad = false;
+    let mut close = |cur: u128, in_run: bool, bad: &mut bool| {
+        if in_run && cur > WIDTH_SANITY && cur <= u64::MAX as u128 {
+            *bad = true;
+        }
+    };
     for c in s.chars() {
         if let Some(d) = c.to_digit(10) {
-            digits += 1;
+            in_run = true;
             cur = cur.saturating_mul(10).saturating_add(d as u128);
-            if cur > WIDTH_SANITY || digits > 30 {
-                return true;
-            }
         } else {
+            close(cur, in_run, &mut bad);
             cur = 0;
-            digits = 0;
+            in_run = false;
         }
     }
-    false
+    close(cur, in_run, &mut bad);
+    bad
 }
 
 /// Classifies a panic message into a signature.
@@ -58,7 +66,7 @@ pub fn exercise(s: &str, recs: &[Rec]) -> Result<Vec<(String, bool)>, Failure> {
         return Ok(outs);
     }
     for rec in recs {
-        match catch(|| encode_with(&enc, rec, vec![])) {
+        match catch(|| encode_limited(&enc, rec, vec![], Some(1 << 20))) {
             Ok((w, res)) => {
                 let bytes = w.bytes();
                 let out = match String::from_utf8(bytes) {
@@ -184,7 +192,8 @@ pub struct Broken {
     pub rec: Rec,
 }
 
-pub const BREAKERS: [&str; 30] = [
+pub const BREAKERS: [&str; 36] = [
+    "{m:99999999999999999999.3}", "{m:_<18446744073709551616.3}", "{m:3.99999999999999999999}", "{l:>99999999999999999999.99999999999999999999}", "{(x):18446744073709551616}", "{m:0.18446744073709551616}",
     "}", ")", "(", "\\x", "\\", "{nope}", "{zz9}", "{m(x)}", "{l()}", "{h}", "{D}", "{R}", "{}", "{(a)(b)}", "{d(%Y)(mars)}", "{d(%Y)()}",
     "{d(%Y)(utc)(x)}", "{X}", "{X()}", "{X(a)(b)(c)}", "{X({m})}", "{m:5", "{m:>", "{(abc", "{m:5.x}", "{m:x5}", "{m 5}", "{h(a)(b)}",
     "{d(%Y)({m})}", "{m:-5}",
@@ -264,6 +273,14 @@ pub fn soup_strategy() -> impl Strategy<Value = Soup> {
                 if cs.is_empty() { break; }
                 let i = (pos as usize * cs.len()) >> 16;
                 match kind {
+                    // splice a digit run of 1-40 digits into a spec: right after a ':' or '.' when there is one
+                    0 if tok & 1 == 1 => {
+                        let at = cs.iter().enumerate().skip(i).find(|(_, c)| **c == ':' || **c == '.').map(|(k, _)| k + 1).unwrap_or(i);
+                        let n = 1 + (tok as usize >> 1) % 40;
+                        for k in 0..n {
+                            cs.insert(at + k, char::from(b'0' + ((tok as usize + k * 7) % 10) as u8));
+                        }
+                    }
                     0 => { cs.remove(i); }
                     1 => { let t: Vec<char> = pick(&TOKENS[..], tok).chars().collect(); for (k, c) in t.into_iter().enumerate() { cs.insert(i + k, c); } }
                     2 => { cs[i] = *pick(&ALPHABET[..], tok); }
